@@ -342,30 +342,47 @@ class Cell:
     def __repr__(s): return f'Cell({s.v!r})'
 
 class Int:
-    __slots__ = ('bv', 'ty')
+    """machine integer / char: python int when concrete (fast path), z3 bit-vector otherwise"""
+    __slots__ = ('_bv', 'ty', 'c')
     def __init__(s, bv, ty):
-        if isinstance(bv, int): bv = z3.BitVecVal(bv, INT_BITS[ty])
-        s.bv, s.ty = bv, ty
+        s.ty = ty
+        if isinstance(bv, int):
+            nb = INT_BITS[ty]; bv &= (1 << nb) - 1
+            s.c = bv - (1 << nb) if (ty[0] == 'i' and bv >> (nb - 1)) else bv
+            s._bv = None
+        else:
+            s._bv = bv; s.c = False       # False = not yet known, None = known symbolic
+    @property
+    def bv(s):
+        if s._bv is None: s._bv = z3.BitVecVal(s.c, INT_BITS[s.ty])
+        return s._bv
     @property
     def signed(s): return s.ty[0] == 'i'
     def concrete(s):
-        v = z3.simplify(s.bv)
-        if z3.is_bv_value(v):
-            return v.as_signed_long() if s.signed else v.as_long()
-        return None
+        if s.c is False:
+            v = z3.simplify(s._bv)
+            if z3.is_bv_value(v): s.c = v.as_signed_long() if s.signed else v.as_long()
+            else: s.c = None
+        return s.c
     def __repr__(s):
         c = s.concrete()
         return f'{c}_{s.ty}' if c is not None else f'{s.ty}:{z3.simplify(s.bv)}'
 
 class Bool:
-    __slots__ = ('b',)
-    def __init__(s, b): s.b = z3.BoolVal(b) if isinstance(b, bool) else b
+    __slots__ = ('_b', 'c')
+    def __init__(s, b):
+        if isinstance(b, bool): s.c = b; s._b = None
+        else: s._b = b; s.c = 0           # 0 = not yet known (distinct from False/True/None)
+    @property
+    def b(s):
+        if s._b is None: s._b = z3.BoolVal(s.c)
+        return s._b
     def concrete(s):
-        v = z3.simplify(s.b)
-        if z3.is_true(v): return True
-        if z3.is_false(v): return False
-        return None
-    def __repr__(s): return f'bool:{z3.simplify(s.b)}'
+        if s.c == 0 and s.c is not False:
+            v = z3.simplify(s._b)
+            s.c = True if z3.is_true(v) else (False if z3.is_false(v) else None)
+        return s.c
+    def __repr__(s): return f'bool:{s.concrete() if s.concrete() is not None else z3.simplify(s.b)}'
 
 class F64:
     __slots__ = ('f',)
@@ -459,21 +476,35 @@ def deep_copy(v):
 # =====================================================================================================
 class Engine:
     def __init__(s, prog):
-        s.prog = prog; s.solver = z3.Solver(); s.queries = 0; s.qtime = 0.0; s.cache = {}
+        s.prog = prog; s.solver = z3.Solver(); s.queries = 0; s.qtime = 0.0; s.cache = {}; s.stack = []; s.keep = None
+        s.solver.set('timeout', int(os.environ.get('VERIF_QUERY_TIMEOUT_MS', '60000')))
         s.models = {}
         s.unsupported = {}
         s.fn_used = set(); s.models_used = set()
         s.deadline = None
     def check(s, pc):
-        key = tuple(sorted(c.get_id() for c in pc))
-        if key in s.cache: return s.cache[key]
+        """sat?(conjunction of pc) with model. The solver's assertion stack mirrors the longest common prefix with the previous
+        query, so that successive queries of one path only add their new constraints."""
+        key = tuple(c.get_id() for c in pc)
+        skey = tuple(sorted(key))
+        if skey in s.cache: return s.cache[skey]
         if len(s.cache) > 150000: s.cache.clear()
-        t = time.time(); s.solver.push(); s.solver.add(*pc); r = s.solver.check()
+        t = time.time()
+        st = s.stack; k = 0; n = min(len(st), len(key))
+        while k < n and st[k] == key[k]: k += 1
+        if len(st) > k:
+            s.solver.pop(len(st) - k); del st[k:]
+        for i in range(k, len(key)):
+            s.solver.push(); s.solver.add(pc[i]); st.append(key[i])
+        s.keep = pc          # keep the ASTs alive: ids must stay unique while they are on the stack
+        r = s.solver.check()
         m = s.solver.model() if r == z3.sat else None
-        s.solver.pop(); s.queries += 1; s.qtime += time.time() - t
-        if r == z3.unknown: raise Unsupported('solver unknown')
-        s.cache[key] = (r == z3.sat, m)
-        return s.cache[key]
+        s.queries += 1; s.qtime += time.time() - t
+        if r == z3.unknown:
+            s.solver.pop(len(st)); del st[:]
+            raise Unsupported('solver unknown: ' + s.solver.reason_unknown())
+        s.cache[skey] = (r == z3.sat, m)
+        return s.cache[skey]
     def explore(s, body, on_path, max_paths=10**9, prefixes=None, stop_at_stack=None):
         """body(ex) runs one path; returns result. DFS with re-execution from decision prefixes.
         Returns (paths_completed, remaining_prefixes). remaining is non-empty when the deadline / max_paths / stop_at_stack hit."""
@@ -521,33 +552,37 @@ class PathExec:
         return z3.BitVec(f'{name}!{len(s.decisions)}_{s.nfresh}', sort_bits)
     def assume(s, c): s.pc.append(c)
     def choose(s, conds):
-        """conds: list of (label, z3 bool); returns label of the branch taken on this path."""
+        """conds: list of (label, z3 bool | python bool); returns label of the branch taken on this path."""
         simp = []
         for lab, c in conds:
+            if c is True: return lab
+            if c is False: continue
             c2 = z3.simplify(c)
             if z3.is_true(c2): return lab       # decided without solver, not a decision point
             if z3.is_false(c2): continue
             simp.append((lab, c2))
-        if not simp: raise Unsupported('no branch')
+        if not simp: raise PathAbort('no feasible branch')
         k = len(s.decisions)
         if k < len(s.prefix):
             lab = s.prefix[k]
-            c = dict(simp)[lab]
-            s.pc.append(c); s.decisions.append(lab); return lab
+            for l2, c in simp:
+                if l2 == lab:
+                    s.pc.append(c); s.decisions.append(lab); return lab
+            raise Unsupported(f'decision prefix does not replay (label {lab!r} not offered)')
         feas = []
         for lab, c in simp:
             sat, _ = s.eng.check(s.pc + [c])
             if sat: feas.append((lab, c))
         if not feas: raise PathAbort('infeasible path')
-        if len(feas) == 1:
-            # forced: still record as decision so prefixes line up
-            pass
         for lab, c in feas[1:]:
             s.alternatives.append(s.decisions + [lab])
         lab, c = feas[0]
         s.pc.append(c); s.decisions.append(lab); return lab
     def branch_bool(s, b):
-        if isinstance(b, Bool): b = b.b
+        if isinstance(b, Bool):
+            c = b.concrete()
+            if c is not None: return c
+            b = b.b
         return s.choose([(True, b), (False, z3.Not(b))])
     def concretize_int(s, v, what='value', limit=64):
         """fork over the feasible concrete values of an Int (used for small domains such as lengths/tags)"""
@@ -652,7 +687,7 @@ class PathExec:
         raise Unsupported(f'operand {op}')
     def const(s, c):
         m = re.match(r'^(-?\d+)_(\w+)$', c)
-        if m: return Int(int(m.group(1)) & ((1 << INT_BITS[m.group(2)]) - 1), m.group(2))
+        if m: return Int(int(m.group(1)), m.group(2))
         if c == 'true': return Bool(True)
         if c == 'false': return Bool(False)
         if c == '()': return UNIT
@@ -764,7 +799,9 @@ class PathExec:
         raise Unsupported(f'aggregate {rv}')
     def cast(s, v, ty, kind):
         if kind == 'IntToInt':
-            if isinstance(v, Bool): v = Int(z3.If(v.b, z3.BitVecVal(1, 8), z3.BitVecVal(0, 8)), 'u8')
+            if isinstance(v, Bool):
+                v = Int(1 if v.c else 0, 'u8') if v.concrete() is not None else Int(z3.If(v.b, z3.BitVecVal(1, 8), z3.BitVecVal(0, 8)), 'u8')
+            if v.concrete() is not None: return Int(v.c, ty)
             nb, ob = INT_BITS[ty], v.bv.size()
             if nb == ob: bv = v.bv
             elif nb < ob: bv = z3.Extract(nb - 1, 0, v.bv)
@@ -799,6 +836,14 @@ class PathExec:
             raise Unsupported(f'PtrMetadata of {v!r}')
         vals = [s.operand(fr, a) for a in args]
         a = vals[0]
+        if isinstance(a, Int) and a.concrete() is not None and (len(vals) == 1 or (isinstance(vals[1], Int) and vals[1].concrete() is not None)):
+            r = s.builtin_concrete(op, a, vals[1] if len(vals) > 1 else None)
+            if r is not None: return r
+        if isinstance(a, Bool) and a.concrete() is not None and (len(vals) == 1 or (isinstance(vals[1], Bool) and vals[1].concrete() is not None)):
+            x = a.c; y = vals[1].c if len(vals) > 1 else None
+            if op == 'Not': return Bool(not x)
+            if op in ('Eq', 'Ne', 'BitAnd', 'BitOr', 'BitXor'):
+                return Bool({'Eq': x == y, 'Ne': x != y, 'BitAnd': x and y, 'BitOr': x or y, 'BitXor': x != y}[op])
         if op == 'Not':
             return Bool(z3.Not(a.b)) if isinstance(a, Bool) else Int(~a.bv, a.ty)
         if op == 'Neg':
@@ -840,6 +885,35 @@ class PathExec:
              'Gt': lambda: x > y if sg else z3.UGT(x, y), 'Ge': lambda: x >= y if sg else z3.UGE(x, y)}
         if op in c: return Bool(c[op]())
         raise Unsupported(f'builtin {op}')
+    def builtin_concrete(s, op, a, b):
+        x = a.c; nb = INT_BITS[a.ty]; sg = a.signed
+        lo, hi = (-(1 << (nb - 1)), (1 << (nb - 1)) - 1) if sg else (0, (1 << nb) - 1)
+        if b is None:
+            if op == 'Not': return Int(~x, a.ty)
+            if op == 'Neg': return Int(-x, a.ty)
+            return None
+        y = b.c
+        if op in ('AddWithOverflow', 'SubWithOverflow', 'MulWithOverflow'):
+            r = x + y if op[0] == 'A' else (x - y if op[0] == 'S' else x * y)
+            return Agg('tuple', None, None, [Cell(Int(r, a.ty)), Cell(Bool(not (lo <= r <= hi)))])
+        if op in ('Add', 'AddUnchecked'): return Int(x + y, a.ty)
+        if op in ('Sub', 'SubUnchecked'): return Int(x - y, a.ty)
+        if op in ('Mul', 'MulUnchecked'): return Int(x * y, a.ty)
+        if op == 'BitAnd': return Int(x & y, a.ty)
+        if op == 'BitOr': return Int(x | y, a.ty)
+        if op == 'BitXor': return Int(x ^ y, a.ty)
+        if op == 'Eq': return Bool(x == y)
+        if op == 'Ne': return Bool(x != y)
+        if op == 'Lt': return Bool(x < y)
+        if op == 'Le': return Bool(x <= y)
+        if op == 'Gt': return Bool(x > y)
+        if op == 'Ge': return Bool(x >= y)
+        if op in ('Div', 'Rem') and y != 0:
+            q = abs(x) // abs(y); q = -q if (x < 0) != (y < 0) else q
+            return Int(q, a.ty) if op == 'Div' else Int(x - q * y, a.ty)
+        if op in ('Shl', 'ShlUnchecked'): return Int(x << (y % nb), a.ty)
+        if op in ('Shr', 'ShrUnchecked'): return Int(x >> (y % nb), a.ty)
+        return None
     def str_byte_len(s, sv):
         n = 0; sym = None
         for ch in sv.chars:
@@ -897,6 +971,10 @@ class PathExec:
         if k == 'assert':
             _, neg, opnd, msg, succ = st
             v = s.operand(fr, opnd)
+            vc = v.concrete()
+            if vc is not None:
+                if vc != neg: return succ
+                raise Panic(msg)
             okc = z3.Not(v.b) if neg else v.b
             if s.choose([('ok', okc), ('fail', z3.Not(okc))]) == 'fail': raise Panic(msg)
             return succ
@@ -905,6 +983,16 @@ class PathExec:
         if k == 'unreachable': raise Unsupported('reached `unreachable`')
         raise Unsupported(f'statement {st}')
     def switch(s, v, targets):
+        c = v.concrete()
+        if c is not None:
+            if isinstance(v, Bool): c = 1 if c else 0
+            else: c &= (1 << INT_BITS[v.ty]) - 1
+            oth = None
+            for kx, b in targets:
+                if kx == 'otherwise': oth = b
+                elif (int(kx) & ((1 << (INT_BITS[v.ty] if isinstance(v, Int) else 8)) - 1)) == c: return b
+            if oth is None: raise Unsupported('switch without matching target')
+            return oth
         if isinstance(v, Bool): bv = z3.If(v.b, z3.BitVecVal(1, 8), z3.BitVecVal(0, 8))
         else: bv = v.bv
         conds, others = [], []
